@@ -109,6 +109,12 @@ func (f *Frame) scanLhs(e ast.Expr, t *Targets) {
 		xt := info.TypeOf(e.X).Underlying()
 		switch xt.(type) {
 		case *types.Map:
+			if gv, ok := f.ghostMapVar(e.X); ok {
+				ks, vs := f.vc.mapSorts(gv.Type())
+				t.globals[ghostMapKey(gv)] = true
+				t.fsort[ghostMapKey(gv)] = ArraySort(ks, vs)
+				return
+			}
 			ks, vs := f.vc.mapSorts(f.subst(info.TypeOf(e.X)))
 			k := ks + "|" + vs
 			t.maps[k] = append(t.maps[k], e.X)
@@ -184,56 +190,73 @@ func (f *Frame) scanNode(n ast.Node, t *Targets, seen map[*ast.FuncDecl]bool, de
 					return true
 				}
 			}
+			var callees []*FuncInfo
 			if sig := fn.Type().(*types.Signature); sig.Recv() != nil {
 				if _, isI := sig.Recv().Type().Underlying().(*types.Interface); isI {
 					if fi := f.vc.prog.Funcs[fn.Origin()]; fi == nil || fi.Kind != KContract {
-						t.all = true // dispatched call: be conservative
-						return true
+						impls := f.implsOf(fn)
+						if len(impls) == 0 {
+							t.all = true
+							return true
+						}
+						for _, im := range impls {
+							callees = append(callees, f.vc.prog.funcInfo(im.fn))
+						}
 					}
 				}
 			}
-			fi := f.vc.prog.funcInfo(fn)
-			if fi.Kind == KNone && fn.Pkg() != nil && f.vc.prog.PurePkgs[fn.Pkg().Path()] {
+			if len(callees) > 0 {
+				for _, cfi := range callees {
+					f.scanCallee(cfi, nil, t, seen, depth+1)
+				}
 				return true
 			}
-			switch fi.Kind {
-			case KContract:
-				sp := fi.Spec
-				if sp.ModAll {
-					t.all = true
-				}
-				if sp.Allocs {
-					t.alloc = true
-				}
-				for _, m := range sp.Modifies {
-					if depth == 0 && f.scanCalleeEntry(sp, m, n, t) {
-						continue
-					}
-					f.scanModifiesEntry(sp, m, t)
-				}
-			case KPure:
-			case KModel:
-				if depth < 6 && !seen[fi.Model] {
-					seen[fi.Model] = true
-					sub := &Frame{vc: f.vc, pk: fi.MPkg, tsub: f.tsub}
-					st := newTargets()
-					sub.scanNode(fi.Model.Body, st, seen, depth+1)
-					t.absorbCallee(st)
-				}
-			case KInline, KSpec:
-				if fi.Decl != nil && fi.Decl.Body != nil && depth < 6 && !seen[fi.Decl] {
-					seen[fi.Decl] = true
-					sub := &Frame{vc: f.vc, pk: fi.Pkg, tsub: f.tsub}
-					st := newTargets()
-					sub.scanNode(fi.Decl.Body, st, seen, depth+1)
-					t.absorbCallee(st)
-				}
-			default:
-				t.all = true
-			}
+			f.scanCallee(f.vc.prog.funcInfo(fn), n, t, seen, depth)
 		}
 		return true
 	})
+}
+
+func (f *Frame) scanCallee(fi *FuncInfo, n *ast.CallExpr, t *Targets, seen map[*ast.FuncDecl]bool, depth int) {
+	fn := fi.Obj
+	if fi.Kind == KNone && fn.Pkg() != nil && f.vc.prog.PurePkgs[fn.Pkg().Path()] {
+		return
+	}
+	switch fi.Kind {
+	case KContract:
+		sp := fi.Spec
+		if sp.ModAll {
+			t.all = true
+		}
+		if sp.Allocs {
+			t.alloc = true
+		}
+		for _, m := range sp.Modifies {
+			if depth == 0 && n != nil && f.scanCalleeEntry(sp, m, n, t) {
+				continue
+			}
+			f.scanModifiesEntry(sp, m, t)
+		}
+	case KPure:
+	case KModel:
+		if depth < 6 && !seen[fi.Model] {
+			seen[fi.Model] = true
+			sub := &Frame{vc: f.vc, pk: fi.MPkg, tsub: f.tsub}
+			st := newTargets()
+			sub.scanNode(fi.Model.Body, st, seen, depth+1)
+			t.absorbCallee(st)
+		}
+	case KInline, KSpec:
+		if fi.Decl != nil && fi.Decl.Body != nil && depth < 6 && !seen[fi.Decl] {
+			seen[fi.Decl] = true
+			sub := &Frame{vc: f.vc, pk: fi.Pkg, tsub: f.tsub}
+			st := newTargets()
+			sub.scanNode(fi.Decl.Body, st, seen, depth+1)
+			t.absorbCallee(st)
+		}
+	default:
+		t.all = true
+	}
 }
 
 // absorbCallee merges a callee's targets: its locals are irrelevant, its heap writes lose their bases.
@@ -268,6 +291,9 @@ func (f *Frame) scanCalleeEntry(sp *Spec, m ast.Expr, call *ast.CallExpr, t *Tar
 	info := sp.Pkg.TypesInfo
 	mt := info.TypeOf(m)
 	if mt == nil {
+		return false
+	}
+	if _, ok := sf.ghostMapVar(m); ok {
 		return false
 	}
 	if _, isMap := mt.Underlying().(*types.Map); isMap {
@@ -314,6 +340,12 @@ func (f *Frame) scanModifiesEntry(sp *Spec, m ast.Expr, t *Targets) {
 		}
 	}
 	mt := info.TypeOf(m)
+	if gv, ok := sf.ghostMapVar(m); ok {
+		ks, vs := f.vc.mapSorts(gv.Type())
+		t.globals[ghostMapKey(gv)] = true
+		t.fsort[ghostMapKey(gv)] = ArraySort(ks, vs)
+		return
+	}
 	if _, isMap := mt.Underlying().(*types.Map); isMap {
 		ks, vs := f.vc.mapSorts(sf.subst(mt))
 		t.maps[ks+"|"+vs] = append(t.maps[ks+"|"+vs], nil)
